@@ -43,6 +43,23 @@ pub fn random_seed_hex(rng: &mut Rng) -> String {
     r::hex_lower(&s)
 }
 
+/// Settings that shape the process around the workers and must not change what any client gets:
+/// a seeded combination for runs that boot the repository's own `main()`.
+pub fn process_settings(rng: &mut Rng, s: &mut ServerSpec) {
+    s.mode = Mode::F;
+    s.source = if rng.chance(1, 2) { ConfigSource::File } else { ConfigSource::Env };
+    if rng.chance(1, 2) {
+        s.client_stats = Some((*rng.pick(&["on", "yes"])).into());
+        s.persist_dir = Some("/tmp".into());
+    }
+    if rng.chance(1, 2) {
+        s.status_interval = Some(*rng.pick(&[1i64, 10, 600]));
+    }
+    if rng.chance(1, 3) {
+        s.health_port = Some(8000 + rng.below(100) as i64);
+    }
+}
+
 /// Per-run knobs of the simulated machine (swarm style). `faulty` selects the fault profile.
 pub fn world_knobs(rng: &mut Rng, plan: &mut Plan, faulty: bool) {
     let w = &mut plan.world;
